@@ -49,3 +49,14 @@ pub fn thin() -> Vec<String> {
     v.sort(); v.dedup();
     v.into_iter().map(|n| n.to_string()).collect()
 }
+
+/// input sizes: the neighbourhood (-1, 0, +1) of every power of two 2^7..2^max_pow2 and of every power of ten 10^3..10^max_pow10,
+/// increasing, without duplicates. A size limit (a fixed buffer, a "robustness" cap, a chunked reader) sits between two of them
+/// or beyond the last one - the bound is stated in the evidence.
+pub fn sizes(max_pow2: u32, max_pow10: u32) -> Vec<usize> {
+    let mut v: Vec<usize> = vec![];
+    for k in 7..=max_pow2 { let p = 1usize << k; v.extend([p - 1, p, p + 1]); }
+    for k in 3..=max_pow10 { let p = 10usize.pow(k); v.extend([p - 1, p, p + 1]); }
+    v.sort(); v.dedup();
+    v
+}
